@@ -584,3 +584,13 @@ def run(ck, prog):
 
 EXPLANATION += (" Predict side: nothing reachable from predict / predict_oob draws random numbers, reads an ambient source or "
                 "iterates a HashMap / HashSet in hash order.")
+
+
+# ------------------------------------------------------------------ generic: the value tested against a bound is the value set to the bound (clamps)
+_run_pre_clamp = run
+
+
+def run(ck, prog):
+    _run_pre_clamp(ck, prog)
+    from sa import clamp
+    clamp.run_rule(ck, prog, set(DIMENSION_FILES))
